@@ -140,7 +140,7 @@ PROPS["C12"] = dict(
                  "Panacea.C12.token_metadata_immutable", "Panacea.C12.denomsByOwner_exact", "Panacea.C12.delete_nonempty_refused"],
     streams=PNFT_STREAM, trusted=PNFT_TRUSTED,
     assumptions=["partial: 'every existing token belongs to an existing denom' and exactness of the PNFTs / PNFTsByDenomOwner listings are checked by the correspondence stream and the mon.c12 monitor after every history, not yet by a theorem (needs the invariant supply = #tokens)"],
-    note="theorems are about the code after fixes 38809bd7 (F7), 463feecd (F8), 74c2443b (F9)",
+    note="theorems are about the code after fixes 38809bd7 (F7), 463feecd (F8), 3b7d7856 (F9)",
 )
 
 TX_TRUSTED = [
@@ -175,7 +175,7 @@ PROPS["C07"] = dict(
     trusted=["hand-written Lean model Panacea/Model/Bank.lean of the parts of cosmos-sdk v0.47.12 x/bank the burn module uses (SpendableCoins, SendCoins incl. its coin-by-coin debit without rollback, BurnCoins, vesting locks) and of x/burn's end-blocker, tied by the burn stream: a real app, multi-denomination sends and vesting-account creation at the burn address, the real EndBlock/Commit of every block, balances/spendable/supply deltas compared, crisis.AssertInvariants after every history",
              "staking/distribution/gov invariants are not modelled: asserted on the implementation only (mon.c07.inv)"],
     assumptions=["denomination universe without duplicates; burn address != burn module account; locked <= balance at the burn address"],
-    note="theorems are about the code after fix 43012583 (F11); burnEndBlockOld with a decide-checked witness shows the unrepaired behaviour",
+    note="theorems are about the code after fix 4ab270d6 (F11); burnEndBlockOld with a decide-checked witness shows the unrepaired behaviour",
 )
 
 PROPS["C08"] = dict(
@@ -188,7 +188,7 @@ PROPS["C08"] = dict(
              "the JSON/jsonpb codecs and the PNFT import path are exercised by the stream only (partial)"] + AOL_TRUSTED[2:],
     assumptions=["tables sorted with keys that are canonical encodings of admitted tuples (CountInv / the validators) for the AOL identity; AddrCodec.Lawful",
                  "known finding F15: free-text strings with invalid UTF-8 are altered by the JSON export"],
-    note="theorems about the code after fix a105331c (F10)",
+    note="theorems about the code after fix 306b67e8 (F10)",
 )
 
 PROPS["C17"] = dict(
@@ -212,8 +212,42 @@ PROPS["C20"] = dict(
     module="Panacea.Properties.C20",
     obligations=["Panacea.C20.good_step", "Panacea.C20.no_deadlock", "Panacea.C20.good_preserved",
                  "Panacea.C20.keystore_threads_good", "Panacea.C20.keystore_never_deadlocks"],
-    streams=[dict(name="kslock", quick=1, thorough=1, thorough_seeds=1)],
+    streams=[dict(name="kslock", quick=1, thorough=1, thorough_seeds=1), dict(name="conc", quick=2, thorough=20, thorough_seeds=2)],
     trusted=["hand-written Lean model of Go's writer-preferring sync.RWMutex and of the lock operations of KeyStore.Save/Load/LoadByAddress (Panacea/Model/Keystore.lean); the lock-operation sequences per method are checked against the source by the fact extractor (Generated facts) and the kslock stream runs 6 loaders + 6 savers under a watchdog on the real code",
              "query snapshot isolation is a theorem of the App model only (Properties/C10); the real baseapp behaviour and Go data-race freedom cannot be exhibited by a model (partial)"],
     assumptions=["partial: data races in Go memory and baseapp's query snapshots are outside any executable model here"],
+)
+
+PROPS["C09"] = dict(
+    module="Panacea.Properties.C09",
+    obligations=["Panacea.C09.replicas_agree", "Panacea.C09.no_nondeterminism_but_genesis_maps",
+                 "Panacea.C09.no_clock_random_concurrency_float_env", "Panacea.C09.genesis_import_order_independent",
+                 "Panacea.C08.import_get", "Panacea.C08.rebuild_sorted"],
+    streams=[dict(name="determinism", quick=6, thorough=120, thorough_seeds=3)],
+    trusted=["translator /verif/extract: the table Generated.nondet of every use of wall clock, randomness, goroutines, channels, select, floats, environment reads and map ranges in the non-client custom packages, regenerated from the source on every run",
+             "determinism stream (support, not proof): twin real applications with different GOMAXPROCS and CheckTx/Simulate/query noise over the same blocks, app hashes and full DeliverTx results compared; repeated import of an AOL genesis with two spellings of one key",
+             "the model cannot exhibit wall clock, map iteration order, scheduler or hardware; IAVL/app-hash computation is SDK code outside it"],
+    assumptions=["partial: replica agreement of the real application is supported by the twin runs, not proved",
+                 "genesis entries have distinct decoded keys (enforced by GenesisState.Validate after fix 8c4f29e9, F12)"],
+)
+PROPS["C10"] = dict(
+    module="Panacea.Properties.C10",
+    obligations=["Panacea.C10.crash_discards_working", "Panacea.C10.restart_resumes_committed",
+                 "Panacea.C10.crash_then_redeliver_eq_uninterrupted", "Panacea.C10.query_reads_committed_snapshot"],
+    streams=[dict(name="restart", quick=6, thorough=120, thorough_seeds=3)],
+    trusted=["node model Panacea/Model/App.lean (committed states per height + a working copy); that the real application has no state outside the mounted stores is the tie Ties/C10 (keeper structs, package variables, mounted stores regenerated from the source)",
+             "restart stream (support): the real application re-opened on the same database after Commit / BeginBlock / any transaction prefix / EndBlock, compared with an uninterrupted twin (height, app hash, dumps, all later blocks)",
+             "durability of IAVL and the database, LoadLatestVersion: outside any model here (MemDB in the stream)"],
+    assumptions=["partial: see trusted base"],
+)
+PROPS["C19"] = dict(
+    module="Panacea.Properties.C19",
+    obligations=["Panacea.C19.fold_descriptors_eq_mounted", "Panacea.C19.every_mounted_store_accounted",
+                 "Panacea.C19.no_mounted_store_deleted", "Panacea.C19.added_stores_are_mounted", "Panacea.C19.no_double_add",
+                 "Panacea.C19.last_upgrade_is_v2_2_1", "Panacea.C19.custom_modules_not_migrated"],
+    streams=[dict(name="upgrade", quick=8, thorough=100, thorough_seeds=3)],
+    trusted=["translator /verif/extract: Generated.upgrades (app.Upgrades with each descriptor's name, Added, Deleted), Generated.mountedStores (arguments of sdk.NewKVStoreKeys), Generated.consensusVersions, regenerated from the source on every run; the theorems are about these regenerated tables",
+             "recorded constant `baseline` (stores of the release before v2.0.5)",
+             "upgrade stream (support for the dynamic half): the v2.2.1 plan crossing its height on a populated real application, custom dumps before/after, module version map, done height, re-opening the database before/at/after the height"],
+    assumptions=["partial: x/upgrade machinery, store loader and restart behaviour are exercised, not proved"],
 )
